@@ -308,6 +308,47 @@ theorem identical_payload_witness :
     ((run (wCfg true allDone) init identicalPayloadOps).ledger.filter (Entry.isCallOf 3 1)) = [.call 3 1 .payload 0 .done] ∧
     ((run (wCfg true allDone) init identicalPayloadOps).ledger.filter (Entry.isCallOf 3 0)).length = 1 := by decide
 
+/-! #### open finding: a private transaction whose payload bytes are already stored -/
+
+/-- the stronger reading of no_loss: every transaction on the DAG whose payload is AVAILABLE in the (hash-keyed) payload
+    store has, for every selecting type-filtered subscriber, a payload job or a completion record -/
+def payloadAvailableNoLossStmt (c : Cfg) : Prop :=
+  ∀ (ops : List Op) (r s : Nat) (t : EvType), r ∈ (run c init ops).dag → c.phash r ∈ (run c init ops).payloads →
+    s < c.nSubs → c.sel s r .payload = true → Typed c s t →
+    (∃ j, (run c init ops).shelf s r = some j ∧ j.type = .payload) ∨ completedIn (run c init ops).ledger s r = true
+
+/-- what is proved: the same with the explicit hypothesis that the payload event of THIS transaction was created, i.e.
+    its payload came with `Add` or through `WritePayload` (admitted_by_commit, payload_event_per_transaction) -/
+theorem payload_no_loss_partial (c : Cfg) (ops : List Op) (r s : Nat) (t : EvType)
+    (hev : (r, EvType.payload) ∈ (run c init ops).admitted) (hs : s < c.nSubs) (hsel : c.sel s r .payload = true)
+    (htyp : Typed c s t) :
+    (∃ j, (run c init ops).shelf s r = some j ∧ j.type = .payload) ∨ completedIn (run c init ops).ledger s r = true :=
+  no_loss c ops r .payload s t hev hs hsel htyp
+
+/-- **negation witness (open finding)**: transaction 0 arrives with its payload; the private transaction 1 has the same
+    payload bytes and arrives without them. The "private" receiver (handlePrivateTxRetry) sees "payload present" and
+    reports done - `allDone` - without `WritePayload`: transaction 1's payload is available, yet vcr_vcs (3) has neither a
+    job nor a completion record for it and is never called. -/
+def storedBeforePrivateOps : List Op :=
+  [.add { ref := 0, withPayload := true }, .afterCommit [0, 1, 2, 3, 4], .afterCommit [0, 1, 2, 3, 4],
+   .add { ref := 1 }, .afterCommit [0, 1, 2, 3, 4]]
+
+theorem payload_available_no_loss_fails : ¬ payloadAvailableNoLossStmt (wCfg true allDone) := by
+  intro h
+  have htyp : Typed (wCfg true allDone) 3 .payload :=
+    typed_of_filter realSubs _ _ 3 _ { type := some .payload, ptype := some "application/vc+json" } .payload rfl
+      (List.mem_cons_self) rfl _ rfl
+  rcases h storedBeforePrivateOps 1 3 .payload (by decide) (by decide) (by decide) (by decide) htyp with ⟨j, hj, _⟩ | hc
+  · have hn : (run (wCfg true allDone) init storedBeforePrivateOps).shelf 3 1 = none := by decide
+    rw [hn] at hj; cases hj
+  · have hn : completedIn (run (wCfg true allDone) init storedBeforePrivateOps).ledger 3 1 = false := by decide
+    rw [hn] at hc; cases hc
+
+/-- in that history the private job is finished and nobody was ever called for transaction 1's payload -/
+example : (run (wCfg true allDone) init storedBeforePrivateOps).shelf 1 1 = none ∧
+    (1, EvType.payload) ∉ (run (wCfg true allDone) init storedBeforePrivateOps).admitted ∧
+    ((run (wCfg true allDone) init storedBeforePrivateOps).ledger.filter (Entry.isCallOf 3 1)) = [] := by decide
+
 /-! ### delivered at least once across a stop: restart_redelivers -/
 
 /-- **restart_redelivers**: whatever state a stop left behind (`σ` is arbitrary: stopped before commit, between commit
